@@ -29,8 +29,8 @@ RULE = ('configuration = three watcher slots (a, b, c) each absent or present wi
 ASSUMPTIONS = ['the [circus] and socket sections are held fixed (changing them is documented to restart everything)',
                'workers obey the stop signal at once (termination behaviour is C02/C03)']
 
-SLOTS = ['a', 'b', 'c']
-INITIAL = {'a': {'np': 1, 'cmd': 0, 'gt': 0, 'envn': 0, 'st': 1}, 'b': {'np': 2, 'cmd': 0, 'gt': 0, 'envn': 0, 'st': 0},
+SLOTS = ['a', 'Bee', 'c']       # one name with an upper-case letter: the watcher directory ignores case, files do not
+INITIAL = {'a': {'np': 1, 'cmd': 0, 'gt': 0, 'envn': 0, 'st': 1}, 'Bee': {'np': 2, 'cmd': 0, 'gt': 0, 'envn': 0, 'st': 0},
            'c': None, 'env': 0}
 
 
